@@ -262,6 +262,27 @@ def gbytes_smart(bs):
     return gbytes(bs)
 
 
+def gbytes_runs(bs):
+    """gbytes with every run of >= 12 equal bytes written as `rep b n` (needs run.Hex in the preamble)."""
+    parts, lit, i, n = [], [], 0, len(bs)
+    while i < n:
+        j = i
+        while j < n and bs[j] == bs[i]:
+            j += 1
+        if j - i >= 12:
+            if lit:
+                parts.append(gbytes(lit))
+                lit = []
+            parts.append(f"rep {bs[i]} {j - i}")
+            i = j
+        else:
+            lit += bs[i:j]
+            i = j
+    if lit or not parts:
+        parts.append(gbytes(lit))
+    return "(" + " ++ ".join(parts) + ")"
+
+
 def gbool(b):
     return "true" if b else "false"
 
